@@ -5,5 +5,6 @@ CONSTANTS NC = 2
           MaxOps = 3
           MaxCrashes = 2
           SyncEvery = 1
-INVARIANTS TypeOK IndexesAgree DirtyCovers NoDanglingIndex PinnedPreserved
+          MaxStale = 1
+INVARIANTS TypeOK IndexesAgree DirtyCovers NoDanglingIndex PinnedPreserved RepairRemovesOnlyStale
 CHECK_DEADLOCK FALSE
